@@ -1,19 +1,35 @@
-(* Proofs/MergePrio.v — C03 as a refinement: mapping documents whose scalars and mappings carry ARBITRARY priorities
-   (no !del / !notnew marks, no lists; !new and safety marks are free), merged into any tree of the same kind, build exactly Spec.UpdateP.upd_p. *)
+(* Proofs/MergePrio.v — C03 as a refinement: mapping documents whose scalars, mappings and WHOLE LISTS carry ARBITRARY priorities
+   (no !del / !notnew marks; !new and safety marks are free; inside a list every node has the list's priority, which is what a
+   container tag gives), merged into any tree of the same kind, build exactly Spec.UpdateP.upd_p - provided a mapping never meets a
+   list at the same path (lcompat; scalars may meet anything). *)
 From AY Require Import Model.Merge Proofs.NodeInd Proofs.FlagsLemmas Proofs.FactsOk Spec.Update Spec.UpdateP
   Proofs.MergePlain Proofs.NotNew Model.Loader Proofs.EvalPlain Proofs.LoaderLemmas Proofs.Laws Proofs.MergeNotNew Proofs.MergeGen.
 
 (* ---------- the priority-carrying image of a tree ---------- *)
 Fixpoint perase (n : node) : pp :=
   match n with
-  | Leaf _ f v => PPS (priority f) v
-  | Comp _ f _ ch => PPD (priority f) ((fix go (l : list (key * node)) := match l with [] => [] | (kk, c) :: r => (kk, perase c) :: go r end) ch)
+  | Leaf _ f v => PPS (priority f) (AS v)
+  | Comp k f _ ch =>
+    if is_listk k
+    then PPS (priority f) (AL ((fix go (l : list (key * node)) := match l with [] => [] | (_, c) :: r => erase c :: go r end) ch))
+    else PPD (priority f) ((fix go (l : list (key * node)) := match l with [] => [] | (kk, c) :: r => (kk, perase c) :: go r end) ch)
   end.
 
 Definition pch (l : list (key * node)) : list (key * pp) := map (fun kc => (fst kc, perase (snd kc))) l.
+Definition lch (l : list (key * node)) : list plain := map (fun kc => erase (snd kc)) l.
 
-Lemma perase_comp k f x ch : perase (Comp k f x ch) = PPD (priority f) (pch ch).
-Proof. cbn [perase]. f_equal. unfold pch. induction ch as [|[kk c] r IH]; cbn; [reflexivity|]. now rewrite IH. Qed.
+Lemma perase_comp k f x ch : perase (Comp k f x ch) = if is_listk k then PPS (priority f) (AL (lch ch)) else PPD (priority f) (pch ch).
+Proof.
+  cbn [perase]. destruct (is_listk k).
+  - do 2 f_equal. unfold lch. induction ch as [|[kk c] r IH]; cbn; [reflexivity|]. now rewrite IH.
+  - f_equal. unfold pch. induction ch as [|[kk c] r IH]; cbn; [reflexivity|]. now rewrite IH.
+Qed.
+
+Lemma perase_dict f x ch : perase (Comp CDict f x ch) = PPD (priority f) (pch ch).
+Proof. rewrite perase_comp. reflexivity. Qed.
+
+Lemma perase_list f x ch : perase (Comp CList f x ch) = PPS (priority f) (AL (lch ch)).
+Proof. rewrite perase_comp. reflexivity. Qed.
 
 Lemma se_priority f f' : same_explicit f f' -> priority f = priority f'.
 Proof. intros (h & _). unfold priority. now rewrite h. Qed.
@@ -22,9 +38,13 @@ Lemma Sim_perase : forall a b, Sim a b -> perase a = perase b.
 Proof.
   induction a as [k f v|k f x ch IH] using node_ind'; intros b HS.
   - inversion HS; subst. cbn. f_equal. now apply se_priority.
-  - inversion HS as [|k0 f0 f' x0 ch0 ch' Hse HF2]; subst. rewrite !perase_comp. f_equal; [now apply se_priority|].
-    unfold pch. clear HS Hse. revert IH. induction HF2 as [|a b l l' [Ek Hs] _ IHl]; intro IH; cbn; [reflexivity|].
-    inversion IH as [|? ? Ha Hr]; subst. rewrite Ek, (Ha _ Hs), IHl; auto.
+  - inversion HS as [|k0 f0 f' x0 ch0 ch' Hse HF2]; subst. rewrite !perase_comp, (se_priority _ _ Hse).
+    assert (E1 : lch ch = lch ch').
+    { unfold lch. clear - HF2. induction HF2 as [|a b l l' [_ Hs] _ IHl]; cbn; [reflexivity|]. now rewrite (Sim_erase _ _ Hs), IHl. }
+    assert (E2 : pch ch = pch ch').
+    { unfold pch. clear HS Hse E1. revert IH. induction HF2 as [|a b l l' [Ek Hs] _ IHl]; intro IH; cbn; [reflexivity|].
+      inversion IH as [|? ? Ha Hr]; subst. rewrite Ek, (Ha _ Hs), IHl; auto. }
+    now rewrite E1, E2.
 Qed.
 
 Lemma adopt_perase kw c : perase (adopt kw c) = perase c.
@@ -36,18 +56,35 @@ Proof. symmetry. apply Sim_perase, propagate_sim. Qed.
 Lemma perase_with_flags n f : priority f = priority (nflags n) -> perase (with_flags n f) = perase n.
 Proof. intro E. destruct n as [k f0 v|k f0 x ch]; cbn [with_flags nflags] in *; [cbn; now rewrite E|]. rewrite !perase_comp. now rewrite E. Qed.
 
+Lemma ppri_perase n : ppri (perase n) = priority (nflags n).
+Proof. destruct n as [k f v|k f x ch]; [reflexivity|]. rewrite perase_comp. destruct (is_listk k); reflexivity. Qed.
+
 (* ---------- the classes ---------- *)
 (* `!new` marks are allowed (they only repeat the default); `!notnew` is not *)
 Definition OZ (f : flags) : Prop := f_del f = None.
 Definition NZ (f : flags) : Prop := OZ f /\ f_new f <> Some false /\ f_inew f <> Some false.
 
+(* a subtree in which every node has priority p - what is (and sits in) a list: older side / newer side (below a list the loader
+   hands down implicit_delete = True) *)
+Inductive UO (p : Z) : node -> Prop :=
+| UOLeaf f v : OZ f -> priority f = p -> UO p (Leaf LScalar f v)
+| UODict f x ch : OZ f -> priority f = p -> Forall (fun kc => UO p (snd kc)) ch -> NoDup (map fst ch) -> UO p (Comp CDict f x ch)
+| UOList f x ch : OZ f -> priority f = p -> Forall (fun kc => UO p (snd kc)) ch -> keys_enum 0 ch -> UO p (Comp CList f x ch).
+
+Inductive UN (p : Z) : node -> Prop :=
+| UNLeaf f v : NZ f -> f_idel f = Some true -> priority f = p -> UN p (Leaf LScalar f v)
+| UNDict f x ch : NZ f -> f_idel f = Some true -> priority f = p -> Forall (fun kc => UN p (snd kc)) ch -> NoDup (map fst ch) -> UN p (Comp CDict f x ch)
+| UNList f x ch : NZ f -> f_idel f = Some true -> priority f = p -> Forall (fun kc => UN p (snd kc)) ch -> keys_enum 0 ch -> UN p (Comp CList f x ch).
+
 Inductive OldZ : node -> Prop :=
 | OZLeaf f v : OZ f -> OldZ (Leaf LScalar f v)
-| OZDict f x ch : OZ f -> Forall (fun kc => OldZ (snd kc)) ch -> NoDup (map fst ch) -> OldZ (Comp CDict f x ch).
+| OZDict f x ch : OZ f -> Forall (fun kc => OldZ (snd kc)) ch -> NoDup (map fst ch) -> OldZ (Comp CDict f x ch)
+| OZList f x ch : OZ f -> Forall (fun kc => UO (priority f) (snd kc)) ch -> keys_enum 0 ch -> OldZ (Comp CList f x ch).
 
 Inductive NewZ : node -> Prop :=
 | NZLeaf f v : NZ f -> NewZ (Leaf LScalar f v)
-| NZDict f x ch : NZ f -> f_idel f = None -> Forall (fun kc => NewZ (snd kc)) ch -> NoDup (map fst ch) -> NewZ (Comp CDict f x ch).
+| NZDict f x ch : NZ f -> f_idel f = None -> Forall (fun kc => NewZ (snd kc)) ch -> NoDup (map fst ch) -> NewZ (Comp CDict f x ch)
+| NZList f x ch : NZ f -> f_idel f <> Some false -> Forall (fun kc => UN (priority f) (snd kc)) ch -> keys_enum 0 ch -> NewZ (Comp CList f x ch).
 
 Lemma OldZ_OZ n : OldZ n -> OZ (nflags n).
 Proof. intro H; inversion H; auto. Qed.
@@ -55,22 +92,70 @@ Proof. intro H; inversion H; auto. Qed.
 Lemma NewZ_NZ n : NewZ n -> NZ (nflags n).
 Proof. intro H; inversion H; auto. Qed.
 
-Lemma OldZ_children n : OldZ n -> Forall (fun kc => OldZ (snd kc)) (children n).
+Lemma UO_OZ p n : UO p n -> OZ (nflags n).
+Proof. intro H; inversion H; auto. Qed.
+
+Lemma UO_prio p n : UO p n -> priority (nflags n) = p.
+Proof. intro H; inversion H; auto. Qed.
+
+Lemma UN_prio p n : UN p n -> priority (nflags n) = p.
+Proof. intro H; inversion H; auto. Qed.
+
+Lemma UO_children p n : UO p n -> Forall (fun kc => UO p (snd kc)) (children n).
 Proof. intro H; inversion H; cbn; auto. Qed.
 
-Lemma NewZ_children n : NewZ n -> Forall (fun kc => NewZ (snd kc)) (children n).
+Lemma UN_children p n : UN p n -> Forall (fun kc => UN p (snd kc)) (children n).
 Proof. intro H; inversion H; cbn; auto. Qed.
+
+Lemma UN_UO p : forall n, UN p n -> UO p n.
+Proof.
+  induction n as [k f v|k f x ch IH] using node_ind'; intro H.
+  - inversion H as [f0 v0 [HO _] _ Hp| |]; subst. constructor; auto.
+  - assert (G : Forall (fun kc => UN p (snd kc)) ch -> Forall (fun kc => UO p (snd kc)) ch).
+    { clear H. induction IH as [|kc r Hkc Hr IHr]; intro HF; [constructor|]. inversion HF; subst. constructor; auto. }
+    inversion H as [|f0 x0 ch0 [HO _] _ Hp HF Hnd|f0 x0 ch0 [HO _] _ Hp HF HK]; subst; constructor; auto.
+Qed.
+
+Lemma UO_OldZ p : forall n, UO p n -> OldZ n.
+Proof.
+  induction n as [k f v|k f x ch IH] using node_ind'; intro H.
+  - inversion H; subst. constructor; auto.
+  - inversion H as [|f0 x0 ch0 HO Hp HF Hnd|f0 x0 ch0 HO Hp HF HK]; subst.
+    + constructor; auto. clear H Hnd. induction IH as [|kc r Hkc Hr IHr]; [constructor|]. inversion HF; subst. constructor; auto.
+    + constructor; auto.
+Qed.
+
+Lemma OldZ_children n : OldZ n -> Forall (fun kc => OldZ (snd kc)) (children n).
+Proof.
+  intro H; inversion H as [| |f x ch HO HF HK]; subst; cbn; auto.
+  clear H HK. induction HF as [|kc r Hkc Hr IH]; constructor; auto. eapply UO_OldZ; eauto.
+Qed.
 
 Lemma NewZ_oldz : forall n, NewZ n -> OldZ n.
 Proof.
   induction n as [k f v|k f x ch IH] using node_ind'; intro H.
-  - inversion H as [f0 v0 [HO _]|]; subst. constructor. exact HO.
-  - inversion H as [|f0 x0 ch0 [HO _] Hi HF Hnd]; subst. constructor; auto.
-    clear H Hnd. induction IH as [|kc r Hkc Hr IHr]; [constructor|]. inversion HF; subst. constructor; auto.
+  - inversion H as [f0 v0 [HO _]| |]; subst. constructor. exact HO.
+  - inversion H as [|f0 x0 ch0 [HO _] Hi HF Hnd|f0 x0 ch0 [HO _] Hi HF HK]; subst.
+    + constructor; auto. clear H Hnd. induction IH as [|kc r Hkc Hr IHr]; [constructor|]. inversion HF; subst. constructor; auto.
+    + constructor; auto. clear - HF. induction HF as [|kc r Hkc Hr IHr]; constructor; auto. now apply UN_UO.
 Qed.
 
 Lemma OZ_same_explicit f f' : same_explicit f f' -> OZ f -> OZ f'.
 Proof. intros (a & b & c & _) h2. unfold OZ in *. congruence. Qed.
+
+Lemma UO_sim p : forall a b, Sim a b -> UO p a -> UO p b.
+Proof.
+  induction a as [k f v|k f x ch IH] using node_ind'; intros b HS H.
+  - inversion HS as [k0 f0 f' v0 Hse|]; subst. inversion H; subst. constructor; [eapply OZ_same_explicit; eauto|now rewrite <- (se_priority _ _ Hse)].
+  - inversion HS as [|k0 f0 f' x0 ch0 ch' Hse HF2]; subst.
+    pose proof (Forall2_fst_eq _ _ _ HF2) as Ek.
+    assert (HF : Forall (fun kc => UO p (snd kc)) ch -> Forall (fun kc => UO p (snd kc)) ch').
+    { clear - IH HF2. revert IH. induction HF2 as [|a b l l' [_ Hs] _ IHl]; intros IH HF; [constructor|].
+      inversion IH; subst. inversion HF; subst. constructor; auto. }
+    inversion H as [|f1 x1 ch1 HOX Hp HFch Hnd|f1 x1 ch1 HOX Hp HFch HK]; subst.
+    + constructor; [eapply OZ_same_explicit; eauto|now rewrite <- (se_priority _ _ Hse)|auto|now rewrite <- Ek].
+    + constructor; [eapply OZ_same_explicit; eauto|now rewrite <- (se_priority _ _ Hse)|auto|eapply keys_enum_fst; eauto].
+Qed.
 
 Lemma OldZ_sim : forall a b, Sim a b -> OldZ a -> OldZ b.
 Proof.
@@ -78,11 +163,14 @@ Proof.
   - inversion HS as [k0 f0 f' v0 Hse|]; subst. inversion H; subst. constructor. eapply OZ_same_explicit; eauto.
   - inversion HS as [|k0 f0 f' x0 ch0 ch' Hse HF2]; subst.
     pose proof (Forall2_fst_eq _ _ _ HF2) as Ek.
-    assert (HF : Forall (fun kc => OldZ (snd kc)) ch -> Forall (fun kc => OldZ (snd kc)) ch').
-    { clear - IH HF2. revert IH. induction HF2 as [|a b l l' [_ Hs] _ IHl]; intros IH HF; [constructor|].
-      inversion IH; subst. inversion HF; subst. constructor; auto. }
-    inversion H as [|f1 x1 ch1 HOX HFch Hnd]; subst.
-    constructor; [eapply OZ_same_explicit; eauto|auto|now rewrite <- Ek].
+    inversion H as [|f1 x1 ch1 HOX HFch Hnd|f1 x1 ch1 HOX HFch HK]; subst.
+    + constructor; [eapply OZ_same_explicit; eauto| |now rewrite <- Ek].
+      clear - IH HF2 HFch. revert IH HFch. induction HF2 as [|a b l l' [_ Hs] _ IHl]; intros IH HF; [constructor|].
+      inversion IH; subst. inversion HF; subst. constructor; auto.
+    + constructor; [eapply OZ_same_explicit; eauto| |eapply keys_enum_fst; eauto].
+      rewrite <- (se_priority _ _ Hse).
+      clear - HF2 HFch. revert HFch. induction HF2 as [|a b l l' [_ Hs] _ IHl]; intro HF; [constructor|].
+      inversion HF; subst. constructor; [eapply UO_sim; eauto|auto].
 Qed.
 
 Lemma adopt_oldz kw c : OldZ c -> OldZ (adopt kw c).
@@ -98,34 +186,62 @@ Lemma OldZ_PlainT : forall n, OldZ n -> EvalPlain.PlainT n.
 Proof.
   induction n as [k f v|k f x ch IH] using node_ind'; intro H.
   - inversion H; subst. constructor.
-  - inversion H as [|f0 x0 ch0 HO HF Hnd]; subst. constructor; [|exact Hnd].
-    clear H Hnd. induction IH as [|kc r Hkc Hr IHr]; [constructor|]. inversion HF; subst. constructor; auto.
+  - pose proof (OldZ_children _ H) as HC. cbn in HC.
+    assert (HF : Forall (fun kc => EvalPlain.PlainT (snd kc)) ch).
+    { clear H. induction IH as [|kc r Hkc Hr IHr]; [constructor|]. inversion HC; subst. constructor; auto. }
+    inversion H as [|f0 x0 ch0 HO _ Hnd|f0 x0 ch0 HO _ HK]; subst; constructor; auto. eapply keys_enum_nodup; eauto.
 Qed.
 
 Lemma NZ_allow_new f : NZ f -> allow_new f = true.
 Proof. intros (_ & _ & H). unfold allow_new, onone. destruct (f_inew f) as [[|]|]; [reflexivity|congruence|apply default_allow_new]. Qed.
 
-Lemma nwp_newz : forall n pre, NewZ n -> Forall (fun pn => NewZ (snd pn)) (nwp pre n).
+(* no node of the subtree forbids new paths *)
+Inductive NN : node -> Prop :=
+| NN_leaf k f v : allow_new f = true -> NN (Leaf k f v)
+| NN_comp k f x ch : allow_new f = true -> Forall (fun kc => NN (snd kc)) ch -> NN (Comp k f x ch).
+
+Lemma UN_NN p : forall n, UN p n -> NN n.
+Proof.
+  induction n as [k f v|k f x ch IH] using node_ind'; intro H.
+  - inversion H; subst. constructor. now apply NZ_allow_new.
+  - pose proof (UN_children _ _ H) as HC. cbn in HC.
+    assert (HA : allow_new f = true) by (inversion H; subst; now apply NZ_allow_new).
+    constructor; [exact HA|]. clear H HA. induction IH as [|kc r Hkc Hr IHr]; [constructor|]. inversion HC; subst. constructor; auto.
+Qed.
+
+Lemma NewZ_NN : forall n, NewZ n -> NN n.
+Proof.
+  induction n as [k f v|k f x ch IH] using node_ind'; intro H.
+  - inversion H; subst. constructor. now apply NZ_allow_new.
+  - pose proof (NZ_allow_new _ (NewZ_NZ _ H)) as HA. cbn in HA. constructor; [exact HA|].
+    inversion H as [|f0 x0 ch0 _ _ HF _|f0 x0 ch0 _ _ HF _]; subst.
+    + clear H HA. induction IH as [|kc r Hkc Hr IHr]; [constructor|]. inversion HF; subst. constructor; auto.
+    + clear - HF. induction HF as [|kc r Hkc Hr IHr]; constructor; auto. eapply UN_NN; eauto.
+Qed.
+
+Lemma nwp_NN : forall n pre, NN n -> Forall (fun pn => allow_new (nflags (snd pn)) = true) (nwp pre n).
 Proof.
   induction n as [k f v|k f x ch IH] using node_ind'; intros pre H.
-  - cbn. constructor; auto.
-  - rewrite nwp_comp. constructor; [exact H|].
-    pose proof (NewZ_children _ H) as HF. cbn in HF. clear H.
-    induction IH as [|kc r Hkc Hr IHr]; cbn; [constructor|].
+  - inversion H; subst. cbn. constructor; auto.
+  - inversion H as [|k0 f0 x0 ch0 HA HF]; subst. rewrite nwp_comp. constructor; [exact HA|].
+    clear H HA. induction IH as [|kc r Hkc Hr IHr]; cbn; [constructor|].
     inversion HF; subst. apply Forall_app. split; auto.
 Qed.
 
-Lemma require_all_new_newz n p exc inc : NewZ n -> require_all_new n p exc inc = true.
+Lemma require_all_new_NN n p exc inc : NN n -> require_all_new n p exc inc = true.
 Proof.
   intro H. unfold require_all_new. apply forallb_forall. intros [q m] Hin. cbn.
-  assert (Hm : NewZ m).
+  assert (Hm : allow_new (nflags m) = true).
   { destruct n as [lk f v|ck f x ch].
-    - destruct inc; cbn in Hin; [|contradiction]. destruct Hin as [E|[]]. inversion E; subst. exact H.
-    - unfold nodes_with_paths in Hin. pose proof (nwp_newz _ p H) as HF. rewrite Forall_forall in HF.
+    - destruct inc; cbn in Hin; [|contradiction]. destruct Hin as [E|[]]. inversion E; subst. inversion H; subst. assumption.
+    - unfold nodes_with_paths in Hin. pose proof (nwp_NN _ p H) as HF. rewrite Forall_forall in HF.
       destruct inc; [apply (HF (q, m)); exact Hin|].
       apply (HF (q, m)). destruct (nwp p (Comp ck f x ch)); cbn in Hin; [contradiction|right; exact Hin]. }
-  rewrite (NZ_allow_new _ (NewZ_NZ _ Hm)). reflexivity.
+  now rewrite Hm.
 Qed.
+
+Lemma require_all_new_newz n p exc inc : NewZ n -> require_all_new n p exc inc = true.
+Proof. intro H. apply require_all_new_NN, NewZ_NN, H. Qed.
 
 Lemma NZ_absorb a b : NZ a -> NZ (absorb a b).
 Proof. intros (h2 & h3 & h4). split; [exact h2|split; [exact h3|exact h4]]. Qed.
@@ -142,11 +258,13 @@ Proof. reflexivity. Qed.
 Lemma priority_become a b : priority (become a b) = priority b.
 Proof. reflexivity. Qed.
 
-Lemma NewZ_with_flags n f : NewZ n -> NZ f -> f_idel f = f_idel (nflags n) -> NewZ (with_flags n f).
-Proof. intros H Hf Hi. inversion H; subst; cbn in *; constructor; auto. congruence. Qed.
+Lemma NewZ_with_flags n f : NewZ n -> NZ f -> f_idel f = f_idel (nflags n) -> priority f = priority (nflags n) -> NewZ (with_flags n f).
+Proof.
+  intros H Hf Hi Hp. inversion H; subst; cbn in *; constructor; auto; try congruence. now rewrite Hp.
+Qed.
 
-Lemma OldZ_with_flags n f : OldZ n -> OZ f -> OldZ (with_flags n f).
-Proof. intros H Hf. inversion H; subst; cbn; constructor; auto. Qed.
+Lemma OldZ_with_flags n f : OldZ n -> OZ f -> priority f = priority (nflags n) -> OldZ (with_flags n f).
+Proof. intros H Hf Hp. inversion H; subst; cbn in *; constructor; auto. now rewrite Hp. Qed.
 
 (* ---------- the relation between the spec's result and the model's ---------- *)
 Definition RelZ (r : pp) (m : res (node * who)) : Prop :=
@@ -156,20 +274,16 @@ Definition RelZ (r : pp) (m : res (node * who)) : Prop :=
 Lemma leaf_merge_z s o : OldZ s -> NewZ o ->
   RelZ (if ppri (perase s) >? ppri (perase o) then perase s else perase o) (Ok (leaf_merge s o)).
 Proof.
-  intros Hs Ho. unfold leaf_merge, has_priority_over.
-  assert (Ps : ppri (perase s) = priority (nflags s)) by (destruct s; [reflexivity|now rewrite perase_comp]).
-  assert (Po : ppri (perase o) = priority (nflags o)) by (destruct o; [reflexivity|now rewrite perase_comp]).
-  rewrite Ps, Po.
+  intros Hs Ho. unfold leaf_merge, has_priority_over. rewrite !ppri_perase.
+  assert (Hq : NewZ (with_flags o (absorb (nflags o) (nflags s)))) by (apply NewZ_with_flags; [exact Ho|apply NZ_absorb, NewZ_NZ; exact Ho|reflexivity|reflexivity]).
   destruct (priority (nflags s) =? priority (nflags o)) eqn:Eq.
   - assert (G : priority (nflags s) >? priority (nflags o) = false) by lia. rewrite G.
     cbn [replace_other fst]. exists (with_flags o (absorb (nflags o) (nflags s))), Other. split; [reflexivity|].
-    assert (Hq : NewZ (with_flags o (absorb (nflags o) (nflags s)))) by (apply NewZ_with_flags; [exact Ho|apply NZ_absorb, NewZ_NZ; exact Ho|reflexivity]).
     split; [apply NewZ_oldz; exact Hq|]. split; [apply perase_with_flags; reflexivity|auto].
   - destruct (priority (nflags s) >? priority (nflags o)) eqn:Eg.
     + cbn [replace_other fst]. exists (with_flags s (absorb (nflags s) (nflags o))), Self. split; [reflexivity|].
-      split; [apply OldZ_with_flags; [exact Hs|apply OZ_absorb, OldZ_OZ; exact Hs]|]. split; [apply perase_with_flags; reflexivity|intro Hx; discriminate].
+      split; [apply OldZ_with_flags; [exact Hs|apply OZ_absorb, OldZ_OZ; exact Hs|reflexivity]|]. split; [apply perase_with_flags; reflexivity|intro Hx; discriminate].
     + cbn [replace_other fst]. exists (with_flags o (absorb (nflags o) (nflags s))), Other. split; [reflexivity|].
-      assert (Hq : NewZ (with_flags o (absorb (nflags o) (nflags s)))) by (apply NewZ_with_flags; [exact Ho|apply NZ_absorb, NewZ_NZ; exact Ho|reflexivity]).
       split; [apply NewZ_oldz; exact Hq|]. split; [apply perase_with_flags; reflexivity|auto].
 Qed.
 
@@ -200,18 +314,29 @@ Proof. unfold pch. apply (aset_map (fun c => perase c)). Qed.
 Lemma pch_aget k l : aget k (pch l) = option_map perase (aget k l).
 Proof. unfold pch. apply (aget_map (fun c => perase c)). Qed.
 
+Lemma lcompat_DD po okv pn kv :
+  lcompat (PPD po okv) (PPD pn kv) <-> Forall (fun kc => match aget (fst kc) okv with Some ov => lcompat ov (snd kc) | None => True end) kv.
+Proof.
+  cbn [lcompat]. induction kv as [|[k v] r IH]; [split; [constructor|trivial]|].
+  split.
+  - intros [H1 H2]. constructor; [exact H1|apply IH; exact H2].
+  - intro H. inversion H; subst. split; [assumption|apply IH; assumption].
+Qed.
+
 (* the loop over a mapping merged onto a mapping *)
 Lemma loop_dict_z rec p f x : forall cho chs,
-  (forall k v c, In (k, v) cho -> OldZ c -> RelZ (upd_p (perase c) (perase v)) (rec (p ++ [k]) c v)) ->
-  Forall (fun kc => NewZ (snd kc)) cho ->
+  (forall k v c, In (k, v) cho -> OldZ c -> lcompat (perase c) (perase v) -> RelZ (upd_p (perase c) (perase v)) (rec (p ++ [k]) c v)) ->
+  (forall k v c, In (k, v) cho -> aget k chs = Some c -> lcompat (perase c) (perase v)) ->
+  Forall (fun kc => NewZ (snd kc)) cho -> NoDup (map fst cho) ->
   OldZ (Comp CDict f x chs) ->
   exists chs', fold_left (merge_step rec [] p) cho (Ok (Comp CDict f x chs)) = Ok (Comp CDict f x chs')
                /\ OldZ (Comp CDict f x chs') /\ pch chs' = updp_go (pch cho) (pch chs).
 Proof.
-  induction cho as [|[k v] rest IH]; intros chs Hrec HP Hold.
+  induction cho as [|[k v] rest IH]; intros chs Hrec Hcomp HP Hndo Hold.
   - cbn. exists chs. auto.
   - cbn [pch map fst snd]. fold (pch rest). cbn [updp_go fold_left].
     inversion HP as [|? ? Hv HPr]; subst. cbn [snd] in Hv.
+    cbn [map fst] in Hndo. inversion Hndo as [|? ? Hnik Hndr]; subst.
     assert (Hf : OZ f) by (apply OldZ_OZ in Hold; exact Hold).
     assert (HF : Forall (fun kc => OldZ (snd kc)) chs) by (apply OldZ_children in Hold; exact Hold).
     assert (Hnd : NoDup (map fst chs)) by (inversion Hold; assumption).
@@ -220,14 +345,18 @@ Proof.
                exists chs', fold_left (merge_step rec [] p) rest (merge_step rec [] p (Ok (Comp CDict f x chs)) (k, v)) = Ok (Comp CDict f x chs')
                             /\ OldZ (Comp CDict f x chs') /\ pch chs' = updp_go (pch rest) (aset k (perase n') (pch chs))).
     { intros n' Hn' Hnd' Heq. rewrite Heq.
-      specialize (IH (aset k n' chs)). rewrite pch_aset in IH. apply IH; [|exact HPr|].
+      specialize (IH (aset k n' chs)). rewrite pch_aset in IH. apply IH; [| |exact HPr|exact Hndr|].
       - intros k0 v0 c0 Hin. apply Hrec. right. exact Hin.
+      - intros k0 v0 c0 Hin Ha. apply (Hcomp k0 v0 c0); [right; exact Hin|].
+        assert (Ek : key_eqb k0 k = false).
+        { apply key_eqb_neq. intro E. subst k0. apply Hnik. apply in_map_iff. exists (k, v0). auto. }
+        now rewrite (aget_aset_neq k0 k n' chs Ek) in Ha.
       - constructor; auto. apply aset_Forall; auto. }
     rewrite pch_aget.
     destruct (aget k chs) as [c|] eqn:Eg; cbn [option_map].
     + assert (Hc : OldZ c) by (eapply aget_Forall; eauto).
       assert (Hnd' : forall n', NoDup (map fst (aset k n' chs))) by (intro n'; now rewrite (aset_fst k n' c chs Eg)).
-      specialize (Hrec k v c (or_introl eq_refl) Hc).
+      specialize (Hrec k v c (or_introl eq_refl) Hc (Hcomp k v c (or_introl eq_refl) Eg)).
       destruct Hrec as (n & w & Er & Hn & En & Hw). rewrite <- En.
       assert (Hexp : explicit_delete v = false) by (apply OldZ_explicit_delete, NewZ_oldz; exact Hv).
       assert (Hexpn : explicit_delete n = false) by (apply OldZ_explicit_delete; exact Hn).
@@ -256,34 +385,215 @@ Proof.
         rewrite require_all_new_newz by exact Hv. reflexivity.
 Qed.
 
-Lemma merge_z : forall fuel p s o, OldZ s -> NewZ o -> (nsize o < fuel)%nat ->
+(* ---------- filter_nodes with a condition that is constant on a class of subtrees ---------- *)
+Section FilterConst.
+  Variable P : node -> Prop.
+  Hypothesis P_children : forall n, P n -> Forall (fun kc => P (snd kc)) (children n).
+  Hypothesis P_enum : forall f x ch, P (Comp CList f x ch) -> keys_enum 0 ch.
+  Hypothesis P_kinds : forall k f x ch, P (Comp k f x ch) -> k = CDict \/ k = CList.
+  Variable cond : path -> node -> bool.
+
+  Lemma shift_kept_all_true kw il : forall l, shift_kept kw il (map (fun kc : key * node => (fst kc, snd kc, true)) l) false = l.
+  Proof. induction l as [|[kk c] r IHl]; cbn; [reflexivity|]. now rewrite IHl. Qed.
+
+  Lemma filter_keep_P : (forall q m, P m -> cond q m = true) -> forall n pre, P n -> filter_nodes cond pre n = (n, []).
+  Proof.
+    intro Hc. induction n as [k f v|k f x ch IH] using node_ind'; intros pre H; [reflexivity|].
+    rewrite filter_nodes_comp. cbv zeta.
+    pose proof (P_children _ H) as HF. cbn in HF.
+    assert (HA : filter_go cond pre ch = (map (fun kc => (fst kc, snd kc, true)) ch, [])).
+    { clear H. induction IH as [|kc r Hkc Hr IHr]; cbn [filter_go]; [reflexivity|].
+      inversion HF as [|? ? Hkc1 HFr]; subst. rewrite (IHr HFr).
+      unfold filter_child. rewrite (Hc _ _ Hkc1). cbn [orb].
+      destruct (snd kc) as [lk lf lv|ck cf cx cch] eqn:Ekc.
+      - cbn. rewrite <- Ekc. reflexivity.
+      - rewrite (Hkc (pre ++ [fst kc]) Hkc1). cbn. rewrite <- Ekc. reflexivity. }
+    rewrite HA. cbn [fst snd]. rewrite shift_kept_all_true.
+    destruct (P_kinds _ _ _ _ H) as [-> | ->]; cbn [is_listk]; [reflexivity|].
+    rewrite renum_enum; [reflexivity|]. eapply P_enum; eauto.
+  Qed.
+
+  Lemma filter_none_P : (forall q m, P m -> cond q m = false) -> forall n pre, P n -> fst (filter_nodes cond pre n) = clear_children n.
+  Proof.
+    intro Hc. induction n as [k f v|k f x ch IH] using node_ind'; intros pre H; [reflexivity|].
+    rewrite filter_nodes_comp. cbv zeta. cbn [fst clear_children].
+    pose proof (P_children _ H) as HF. cbn in HF.
+    assert (G : Forall (fun m => snd m = false) (fst (filter_go cond pre ch))).
+    { clear H. revert pre. induction IH as [|kc r Hkc Hr IHr]; intro pre; cbn [filter_go]; [constructor|].
+      inversion HF as [|? ? Hkc1 HFr]; subst.
+      assert (Efc : snd (fst (filter_child (filter_nodes cond) cond pre kc)) = false).
+      { unfold filter_child. rewrite (Hc _ _ Hkc1). cbn [orb].
+        destruct (snd kc) as [lk lf lv|ck cf cx cch] eqn:Ekc; [reflexivity|].
+        pose proof (Hkc (pre ++ [fst kc]) Hkc1) as Hr'.
+        destruct (filter_nodes cond (pre ++ [fst kc]) (Comp ck cf cx cch)) as [c' rc]. cbn [fst snd] in *. subst c'. reflexivity. }
+      destruct (filter_child (filter_nodes cond) cond pre kc) as [[[kk c'] b] rm]. cbn [fst snd] in Efc. subst b.
+      specialize (IHr HFr pre). destruct (filter_go cond pre r) as [rest rem_r]. cbn [fst snd] in *. constructor; auto. }
+    rewrite (shift_kept_all_false _ _ _ _ G). destruct (is_listk k); reflexivity.
+  Qed.
+End FilterConst.
+
+(* ---------- a whole list meets a whole list ---------- *)
+Lemma UO_kinds p k f x ch : UO p (Comp k f x ch) -> k = CDict \/ k = CList.
+Proof. intro H; inversion H; auto. Qed.
+
+Lemma UO_enum p f x ch : UO p (Comp CList f x ch) -> keys_enum 0 ch.
+Proof. intro H; inversion H; auto. Qed.
+
+Lemma get_child_UO p n k c : UO p n -> get_child n k = Some c -> UO p c.
+Proof.
+  intros H E. destruct n as [lk f v|ck f x ch]; cbn in E; [discriminate|].
+  pose proof (UO_children _ _ H) as HF. cbn in HF.
+  destruct (is_listk ck).
+  - destruct (validate_index (zlen ch) k true); try discriminate. exact (aget_Forall (UO p) _ ch c HF E).
+  - exact (aget_Forall (UO p) _ ch c HF E).
+Qed.
+
+Lemma fnm_UO p : forall q n, UO p n -> UO p (first_not_missing n q).
+Proof.
+  induction q as [|k r IH]; intros n H; cbn; [exact H|].
+  destruct (has_child n k); [|exact H].
+  destruct (get_child n k) eqn:E; [|exact H]. apply IH. eapply get_child_UO; eauto.
+Qed.
+
+Lemma OldZ_list_UO f x ch : OldZ (Comp CList f x ch) -> UO (priority f) (Comp CList f x ch).
+Proof. intro H. inversion H; subst. constructor; auto. Qed.
+
+Lemma NewZ_list_UO f x ch : NewZ (Comp CList f x ch) -> UO (priority f) (Comp CList f x ch).
+Proof.
+  intro H. inversion H as [| |f0 x0 ch0 [HO _] _ HF HK]; subst. constructor; auto.
+  clear - HF. induction HF as [|kc r Hkc Hr IH]; constructor; auto. now apply UN_UO.
+Qed.
+
+Lemma UN_delete p n : UN p n -> delete n = true.
+Proof. intro H. unfold delete. inversion H as [f v [HO _] Hi _|f x ch [HO _] Hi _ _ _|f x ch [HO _] Hi _ _ _]; subst; cbn [nflags]; unfold OZ in HO; now rewrite HO, Hi. Qed.
+
+Lemma hpo_prio a b e : has_priority_over a b e = if priority (nflags a) =? priority (nflags b) then e else priority (nflags a) >? priority (nflags b).
+Proof. reflexivity. Qed.
+
+Lemma list_list_z rec p fs xs chs fo xo cho :
+  OldZ (Comp CList fs xs chs) -> NewZ (Comp CList fo xo cho) ->
+  RelZ (if priority fs >? priority fo then perase (Comp CList fs xs chs) else perase (Comp CList fo xo cho))
+       (list_merge rec [] p (Comp CList fs xs chs) (Comp CList fo xo cho)).
+Proof.
+  intros Hs Ho. set (s := Comp CList fs xs chs) in *. set (o := Comp CList fo xo cho) in *.
+  set (ps := priority fs). set (po := priority fo).
+  pose proof (OldZ_list_UO _ _ _ Hs) as Us. fold s ps in Us.
+  pose proof (NewZ_list_UO _ _ _ Ho) as Uo. fold o po in Uo.
+  assert (HFo : Forall (fun kc => UN po (snd kc)) cho) by (inversion Ho; subst; assumption).
+  assert (Edo : forall ch', delete (Comp CList fo xo ch') = true).
+  { intro ch'. inversion Ho as [| |f0 x0 ch0 [HO _] Hi _ _]; subst. unfold delete. cbn [nflags]. unfold OZ in HO. rewrite HO.
+    destruct (f_idel fo) as [[|]|]; [reflexivity|congruence|apply list_default_delete]. }
+  assert (HNN : forall ch', Forall (fun kc => NN (snd kc)) ch' -> NN (Comp CList fo xo ch')).
+  { intros ch' H. constructor; [apply NZ_allow_new, (NewZ_NZ _ Ho)|exact H]. }
+  unfold list_merge, o. cbn [is_listk negb andb]. fold o.
+  (* the pre-filter of the newer list *)
+  assert (Hkeep : forall q m, UN po m -> keep_if_exists s q m = if po =? ps then true else po >? ps).
+  { intros q m Hm. unfold keep_if_exists. rewrite (UN_delete _ _ Hm). cbn [negb orb]. rewrite hpo_prio.
+    rewrite (UN_prio _ _ Hm), (UO_prio _ _ (fnm_UO ps q s Us)). reflexivity. }
+  destruct (if po =? ps then true else po >? ps) eqn:Ege.
+  - (* the newer list is not outranked: it replaces the older one wholesale *)
+    assert (E1 : filter_nodes (keep_if_exists s) [] o = (o, [])).
+    { unfold o. rewrite filter_nodes_comp. cbv zeta.
+      assert (HA : filter_go (keep_if_exists s) [] cho = (map (fun kc => (fst kc, snd kc, true)) cho, [])).
+      { clear - HFo Hkeep. induction HFo as [|kc r Hkc Hr IHr]; cbn [filter_go]; [reflexivity|]. rewrite IHr.
+        unfold filter_child. rewrite (Hkeep _ _ Hkc). cbn [orb].
+        destruct (snd kc) as [lk lf lv|ck cf cx cch] eqn:Ekc; [cbn; rewrite <- Ekc; reflexivity|].
+        rewrite (filter_keep_P (UN po) (UN_children po) (fun f x ch H => match H with UNList _ _ _ _ _ _ _ _ HK => HK end)
+                   (fun k f x ch H => match H in UN _ n return match n with Comp k _ _ _ => k = CDict \/ k = CList | _ => True end with
+                                      | UNLeaf _ _ _ _ _ _ => I | UNDict _ _ _ _ _ _ _ _ _ => or_introl eq_refl | UNList _ _ _ _ _ _ _ _ _ => or_intror eq_refl end)
+                   (keep_if_exists s) Hkeep _ _ Hkc).
+        cbn. rewrite <- Ekc. reflexivity. }
+      rewrite HA. cbn [fst snd is_listk]. rewrite shift_kept_all_true. rewrite renum_enum; [reflexivity|]. inversion Ho; subst; assumption. }
+    rewrite E1. cbn [fst]. unfold comp_merge. unfold o. fold o. unfold prune.
+    assert (Edo' : delete o = true) by apply Edo. rewrite Edo'.
+    set (cond2 := fun (ap : path) (n : node) => has_priority_over n (first_not_missing o (skipn (length p) ap)) false).
+    assert (Hc2 : forall q m, UO ps m -> cond2 q m = false).
+    { intros q m Hm. unfold cond2. rewrite hpo_prio, (UO_prio _ _ Hm), (UO_prio _ _ (fnm_UO po _ o Uo)). fold ps po in Ege |- *.
+      destruct (po =? ps) eqn:E1'; [assert (ps =? po = true) as -> by lia; reflexivity|].
+      assert (ps =? po = false) as -> by lia. lia. }
+    pose proof (filter_none_P (UO ps) (UO_children ps) cond2 Hc2 s p Us) as Ef.
+    destruct (filter_nodes cond2 p s) as [s' removed]. cbn [fst] in Ef. subst s'. unfold s. cbn [clear_children children andb].
+    rewrite hpo_prio. unfold o. cbn [nflags]. fold o. fold ps po. rewrite Ege.
+    rewrite (require_all_new_NN o _ _ _ (NewZ_NN _ Ho)).
+    unfold replace_other, o. cbn [with_flags nflags maybe_promote ckind_eqb fst snd who_of].
+    assert (Hq : NewZ (with_flags o (absorb fo fs))) by (apply NewZ_with_flags; [exact Ho|apply NZ_absorb, (NewZ_NZ _ Ho)|reflexivity|reflexivity]).
+    exists (Comp CList (absorb fo fs) xo cho), Other. split; [reflexivity|]. split; [apply NewZ_oldz; exact Hq|].
+    split; [|intros _; exact Hq].
+    assert (G : ps >? po = false).
+    { destruct (po =? ps) eqn:E1'; lia. }
+    fold ps po. rewrite G. rewrite !perase_list. reflexivity.
+  - (* the older list outranks the newer one: the newer elements are dropped by the pre-filter, the older list stays *)
+    assert (Hkeep' : forall q m, UN po m -> keep_if_exists s q m = false) by (intros q m Hm; now rewrite Hkeep).
+    assert (E1 : fst (filter_nodes (keep_if_exists s) [] o) = Comp CList fo xo []).
+    { unfold o. rewrite filter_nodes_comp. cbv zeta. cbn [fst is_listk].
+      assert (G : Forall (fun m => snd m = false) (fst (filter_go (keep_if_exists s) [] cho))).
+      { clear - HFo Hkeep'. induction HFo as [|kc r Hkc Hr IHr]; cbn [filter_go]; [constructor|].
+        assert (Efc : snd (fst (filter_child (filter_nodes (keep_if_exists s)) (keep_if_exists s) [] kc)) = false).
+        { unfold filter_child. rewrite (Hkeep' _ _ Hkc). cbn [orb].
+          destruct (snd kc) as [lk lf lv|ck cf cx cch] eqn:Ekc; [reflexivity|].
+          pose proof (filter_none_P (UN po) (UN_children po) (keep_if_exists s) Hkeep' _ ([] ++ [fst kc]) Hkc) as Hr'.
+          destruct (filter_nodes (keep_if_exists s) ([] ++ [fst kc]) (Comp ck cf cx cch)) as [c' rc]. cbn [fst snd] in *. subst c'. reflexivity. }
+        destruct (filter_child (filter_nodes (keep_if_exists s)) (keep_if_exists s) [] kc) as [[[kk c'] b] rm]. cbn [fst snd] in Efc. subst b.
+        destruct (filter_go (keep_if_exists s) [] r) as [rest rem_r]. cbn [fst snd] in *. constructor; auto. }
+      rewrite (shift_kept_all_false _ _ _ _ G). reflexivity. }
+    rewrite E1. set (o1 := Comp CList fo xo []).
+    assert (Uo1 : UO po o1) by (inversion Uo; subst; constructor; auto; cbn; auto).
+    unfold comp_merge. unfold o1. fold o1. unfold prune.
+    assert (Edo' : delete o1 = true) by apply Edo. rewrite Edo'.
+    set (cond2 := fun (ap : path) (n : node) => has_priority_over n (first_not_missing o1 (skipn (length p) ap)) false).
+    assert (G : ps >? po = true).
+    { destruct (po =? ps) eqn:E1'; [discriminate|]. lia. }
+    assert (Hc2 : forall q m, UO ps m -> cond2 q m = true).
+    { intros q m Hm. unfold cond2. rewrite hpo_prio, (UO_prio _ _ Hm), (UO_prio _ _ (fnm_UO po _ o1 Uo1)).
+      assert (ps =? po = false) as -> by lia. exact G. }
+    rewrite (filter_keep_P (UO ps) (UO_children ps) (UO_enum ps) (UO_kinds ps) cond2 Hc2 s p Us).
+    assert (Eh : has_priority_over o1 s true = false).
+    { rewrite hpo_prio. unfold o1, s. cbn [nflags]. fold ps po. destruct (po =? ps) eqn:E1'; [discriminate|exact Ege]. }
+    rewrite Eh, andb_false_r. cbn [fold_left bind]. rewrite Eh.
+    unfold replace_other, s, o1. cbn [with_flags nflags maybe_promote ckind_eqb fst snd who_of].
+    exists (Comp CList (absorb fs fo) xs chs), Self. split; [reflexivity|].
+    split; [apply (OldZ_with_flags s (absorb fs fo) Hs); [apply OZ_absorb, (OldZ_OZ _ Hs)|reflexivity]|].
+    split; [|intro Hx; discriminate]. fold ps po. rewrite G. rewrite !perase_list. reflexivity.
+Qed.
+
+Lemma is_AL_perase_list f x ch : perase (Comp CList f x ch) = PPS (priority f) (AL (lch ch)).
+Proof. apply perase_list. Qed.
+
+Lemma merge_z : forall fuel p s o, OldZ s -> NewZ o -> lcompat (perase s) (perase o) -> (nsize o < fuel)%nat ->
   RelZ (upd_p (perase s) (perase o)) (on_merge [] fuel p s o).
 Proof.
-  induction fuel as [|fu IH]; intros p s o Hs Hp Hlt; [lia|].
+  induction fuel as [|fu IH]; intros p s o Hs Hp Hc Hlt; [lia|].
   cbn [on_merge].
   destruct s as [lk lf lv | ck cf cx chs].
   - cbn [dispatch]. rewrite upd_p_other by (right; cbn; exact I). apply leaf_merge_z; auto.
-  - inversion Hp as [fo v HN|fo xo cho HN Hi HF Hnd]; subst.
-    + rewrite upd_p_other by (left; exact I).
+  - inversion Hp as [fo v HN|fo xo cho HN Hi HF Hnd|fo xo cho HN Hi HF HK]; subst.
+    + (* a scalar meets a container *)
+      rewrite upd_p_other by (left; exact I).
       assert (E : dispatch (on_merge [] fu) [] p (Comp ck cf cx chs) (Leaf LScalar fo v) = Ok (leaf_merge (Comp ck cf cx chs) (Leaf LScalar fo v))).
       { inversion Hs; subst; reflexivity. }
       rewrite E. apply leaf_merge_z; auto.
-    + rewrite nsize_comp in Hlt.
+    + (* a mapping *)
+      rewrite nsize_comp in Hlt.
       set (o := Comp CDict fo xo cho) in *.
       assert (Ho : OldZ o) by (apply NewZ_oldz; exact Hp).
-      assert (Hrec : forall k v c, In (k, v) cho -> OldZ c -> RelZ (upd_p (perase c) (perase v)) (on_merge [] fu (p ++ [k]) c v)).
-      { intros k v c Hin Hc. rewrite Forall_forall in HF. apply IH; [exact Hc|apply (HF (k, v) Hin)|].
+      assert (Eo : perase o = PPD (priority fo) (pch cho)) by (unfold o; apply perase_dict).
+      inversion Hs as [|f0 x0 ch0 HOX HFch Hnd0|f0 x0 ch0 HOX HFch HK0]; subst.
+      2:{ (* ... never meets a list *) rewrite perase_list, Eo in Hc. cbn in Hc. contradiction. }
+      rewrite perase_dict, Eo in Hc. rewrite lcompat_DD in Hc.
+      assert (Hrec : forall k v c, In (k, v) cho -> OldZ c -> lcompat (perase c) (perase v) -> RelZ (upd_p (perase c) (perase v)) (on_merge [] fu (p ++ [k]) c v)).
+      { intros k v c Hin Hc0 Hl. rewrite Forall_forall in HF. apply IH; [exact Hc0|apply (HF (k, v) Hin)|exact Hl|].
         assert (nsize v <= list_sum (map (fun kc => nsize (snd kc)) cho))%nat; [|lia].
         clear - Hin. unfold list_sum. induction cho as [|[k' v'] r IHr]; [contradiction|]. cbn [map fold_right snd fst]. destruct Hin as [E|Hin]; [inversion E; subst; lia|].
         specialize (IHr Hin). lia. }
+      assert (Hcomp : forall k v c, In (k, v) cho -> aget k chs = Some c -> lcompat (perase c) (perase v)).
+      { intros k v c Hin Ea. rewrite Forall_forall in Hc. specialize (Hc (k, perase v)). cbn [fst snd] in Hc.
+        rewrite pch_aget, Ea in Hc. cbn [option_map] in Hc. apply Hc. unfold pch. apply in_map_iff. exists (k, v). auto. }
       assert (Edo : delete o = false).
       { destruct HN as [Hd _]. unfold OZ in Hd. unfold o, delete. cbn [nflags]. rewrite Hd, Hi. cbn. apply dict_default_delete. }
-      inversion Hs as [|f0 x0 ch0 HOX HFch Hnd0]; subst.
-      assert (Eo : perase o = PPD (priority fo) (pch cho)) by (unfold o; apply perase_comp).
-      rewrite perase_comp, Eo, upd_p_DD.
+      rewrite perase_dict, Eo, upd_p_DD.
       cbn [dispatch is_funck is_listk]. unfold comp_merge. unfold o at 1.
       unfold prune. fold o. rewrite Edo.
-      destruct (loop_dict_z (on_merge [] fu) p cf cx cho chs Hrec HF Hs) as (chs' & EL & Hold' & Er).
+      destruct (loop_dict_z (on_merge [] fu) p cf cx cho chs Hrec Hcomp HF Hnd Hs) as (chs' & EL & Hold' & Er).
       rewrite EL. cbn [bind].
       unfold has_priority_over. cbn [nflags]. unfold o at 1 2. cbn [nflags].
       assert (Hpm : forall f2, maybe_promote (Comp CDict f2 cx chs') o = (Comp CDict f2 cx chs', false)) by reflexivity.
@@ -292,56 +602,112 @@ Proof.
       * unfold replace_self. cbn [with_flags nflags]. rewrite Hpm. cbn [fst snd who_of].
         exists (propagate (Comp CDict (become cf (nflags o)) cx chs')), Self. split; [reflexivity|].
         split; [apply propagate_oldz, HO2, OZ_become; [exact HOX|apply (OldZ_OZ _ Ho)]|]. split; [|intro Hx; discriminate].
-        rewrite propagate_perase, perase_comp, priority_become, Er. unfold o. cbn [nflags]. f_equal.
+        rewrite propagate_perase, perase_dict, priority_become, Er. unfold o. cbn [nflags]. f_equal.
         assert (G : priority cf >? priority fo = false) by lia. now rewrite G.
       * destruct (priority fo >? priority cf) eqn:Eg.
         -- unfold replace_self. cbn [with_flags nflags]. rewrite Hpm. cbn [fst snd who_of].
            exists (propagate (Comp CDict (become cf (nflags o)) cx chs')), Self. split; [reflexivity|].
            split; [apply propagate_oldz, HO2, OZ_become; [exact HOX|apply (OldZ_OZ _ Ho)]|]. split; [|intro Hx; discriminate].
-           rewrite propagate_perase, perase_comp, priority_become, Er. unfold o. cbn [nflags]. f_equal.
+           rewrite propagate_perase, perase_dict, priority_become, Er. unfold o. cbn [nflags]. f_equal.
            assert (G : priority cf >? priority fo = false) by lia. now rewrite G.
         -- unfold replace_other. cbn [with_flags nflags]. rewrite Hpm. cbn [fst snd who_of].
            exists (Comp CDict (absorb cf (nflags o)) cx chs'), Self. split; [reflexivity|].
            split; [apply HO2, OZ_absorb; exact HOX|]. split; [|intro Hx; discriminate].
-           rewrite perase_comp, priority_absorb, Er. f_equal.
+           rewrite perase_dict, priority_absorb, Er. f_equal.
            assert (G : priority cf >? priority fo = true) by lia. now rewrite G.
+    + (* a whole list *)
+      inversion Hs as [|f0 x0 ch0 HOX HFch Hnd0|f0 x0 ch0 HOX HFch HK0]; subst.
+      * (* ... never meets a mapping *) rewrite perase_dict, perase_list in Hc. cbn in Hc. contradiction.
+      * rewrite upd_p_other by (left; rewrite perase_list; exact I). rewrite !ppri_perase. cbn [nflags].
+        cbn [dispatch is_funck is_listk]. apply list_list_z; assumption.
 Qed.
 
 (* ---------- whole stages ---------- *)
-Lemma merge2_z e root o : OldZ root -> NewZ o ->
+Lemma merge2_z e root o : OldZ root -> NewZ o -> lcompat (perase root) (perase o) ->
   exists n, merge2 e root o = Ok n /\ OldZ n /\ perase n = upd_p (perase root) (perase o).
 Proof.
-  intros Hr Hp. unfold merge2.
+  intros Hr Hp Hc. unfold merge2.
   rewrite (premerge_plainT e o [] (Some root) (OldZ_PlainT _ (NewZ_oldz _ Hp))). cbn [bind].
-  destruct (merge_z (nsize root + nsize o + 1) [] root o Hr Hp ltac:(lia)) as (n & w & E & Hn & En & _).
+  destruct (merge_z (nsize root + nsize o + 1) [] root o Hr Hp Hc ltac:(lia)) as (n & w & E & Hn & En & _).
   rewrite E. cbn [bind fst]. eauto.
 Qed.
 
 Definition is_PPD (d : pp) : bool := match d with PPD _ _ => true | _ => false end.
 
 Lemma is_dictk_perase n : OldZ n -> is_dictk n = is_PPD (perase n).
-Proof. intro H. inversion H; subst; [reflexivity|]. rewrite perase_comp. reflexivity. Qed.
+Proof. intro H. inversion H; subst; [reflexivity|rewrite perase_dict; reflexivity|rewrite perase_list; reflexivity]. Qed.
 
 Lemma upd_p_PPD a b : is_PPD a = true -> is_PPD b = true -> is_PPD (upd_p a b) = true.
 Proof. destruct a, b; try discriminate. intros _ _. rewrite upd_p_DD. reflexivity. Qed.
 
-Lemma fold_merge2_z e : forall sts root, OldZ root -> Forall NewZ sts ->
+Lemma fold_merge2_z e : forall sts root, OldZ root -> Forall NewZ sts -> hcompat (perase root) (map perase sts) ->
   exists n, fold_left (fun acc st => do root <- acc; merge2 e root st) sts (Ok root) = Ok n /\ OldZ n
             /\ perase n = fold_left upd_p (map perase sts) (perase root).
 Proof.
-  induction sts as [|st sts IH]; intros root Hr HF; cbn [map fold_left bind].
+  induction sts as [|st sts IH]; intros root Hr HF Hh; cbn [map fold_left bind].
   - eauto.
-  - inversion HF as [|? ? Hst HF']; subst.
-    destruct (merge2_z e root st Hr Hst) as (n & E & Hn & En). rewrite E, <- En. apply IH; auto.
+  - inversion HF as [|? ? Hst HF']; subst. cbn [map hcompat] in Hh. destruct Hh as [Hc Hh].
+    destruct (merge2_z e root st Hr Hst Hc) as (n & E & Hn & En). rewrite E, <- En. apply IH; auto. now rewrite En.
 Qed.
 
-(* Builder.flatten of documents of the class IS the left fold of upd_p *)
-Theorem flatten_prio e s0 sts : Forall NewZ (s0 :: sts) -> forallb is_dictk (s0 :: sts) = true ->
-  exists n, flatten e (s0 :: sts) = Ok n /\ perase n = fold_left upd_p (map perase sts) (perase s0).
+(* Builder.flatten of documents of the class IS the left fold of upd_p, as long as no mapping meets a list *)
+Theorem flatten_prio_l e s0 sts : Forall NewZ (s0 :: sts) -> forallb is_dictk (s0 :: sts) = true -> hcompat (perase s0) (map perase sts) ->
+  exists n, flatten e (s0 :: sts) = Ok n /\ OldZ n /\ perase n = fold_left upd_p (map perase sts) (perase s0).
 Proof.
-  intros HF Hd. inversion HF as [|? ? Hp HF']; subst.
+  intros HF Hd Hh. inversion HF as [|? ? Hp HF']; subst.
   unfold flatten. rewrite Hd.
   rewrite (premerge_plainT e s0 [] None (OldZ_PlainT _ (NewZ_oldz _ Hp))). cbn [bind].
   rewrite require_all_new_newz by exact Hp.
-  destruct (fold_merge2_z e sts s0 (NewZ_oldz _ Hp) HF') as (n & E & _ & En). eauto.
+  destruct (fold_merge2_z e sts s0 (NewZ_oldz _ Hp) HF' Hh) as (n & E & Hn & En). eauto.
+Qed.
+
+Theorem flatten_prio e s0 sts : Forall NewZ (s0 :: sts) -> forallb is_dictk (s0 :: sts) = true -> hcompat (perase s0) (map perase sts) ->
+  exists n, flatten e (s0 :: sts) = Ok n /\ perase n = fold_left upd_p (map perase sts) (perase s0).
+Proof. intros HF Hd Hh. destruct (flatten_prio_l e s0 sts HF Hd Hh) as (n & E & _ & En). eauto. Qed.
+
+(* ---------- histories without lists: the side condition is vacuous ---------- *)
+Fixpoint nolist (d : pp) : Prop :=
+  match d with
+  | PPS _ (AS _) => True
+  | PPS _ (AL _) => False
+  | PPD _ kv => (fix go (l : list (key * pp)) : Prop := match l with [] => True | (_, c) :: r => nolist c /\ go r end) kv
+  end.
+
+Lemma nolist_PPD p kv : nolist (PPD p kv) <-> Forall (fun kc => nolist (snd kc)) kv.
+Proof.
+  cbn [nolist]. induction kv as [|[k c] r IH]; [split; [constructor|trivial]|]. split.
+  - intros [A B]. constructor; [exact A|apply IH; exact B].
+  - intro H. inversion H; subst. split; [assumption|apply IH; assumption].
+Qed.
+
+Lemma lcompat_nolist : forall b a, nolist a -> nolist b -> lcompat a b.
+Proof.
+  fix IH 1. intros b a Ha Hb. destruct b as [pn [vn|ln]|pn kv]; [exact I|contradiction|].
+  destruct a as [po [vo|lo]|po okv]; [exact I|contradiction|].
+  cbn [lcompat]. apply nolist_PPD in Hb. apply nolist_PPD in Ha.
+  induction kv as [|[k v] r IHr]; [exact I|]. inversion Hb as [|? ? Hv Hr]; subst. split; [|apply IHr; exact Hr].
+  destruct (aget k okv) as [ov|] eqn:E; [|exact I]. apply IH; [|exact Hv]. exact (aget_Forall nolist k okv ov Ha E).
+Qed.
+
+Lemma aset_Forall_snd {V} (P : V -> Prop) k v (l : list (key * V)) : P v -> Forall (fun kc => P (snd kc)) l -> Forall (fun kc => P (snd kc)) (aset k v l).
+Proof. apply aset_Forall. Qed.
+
+Lemma nolist_upd_p : forall b a, nolist a -> nolist b -> nolist (upd_p a b).
+Proof.
+  fix IH 1. intros b a Ha Hb. destruct b as [pn vn|pn kv].
+  - rewrite upd_p_other by (left; exact I). destruct (ppri a >? ppri (PPS pn vn)); assumption.
+  - destruct a as [po vo|po okv].
+    + rewrite upd_p_other by (right; exact I). destruct (ppri (PPS po vo) >? ppri (PPD pn kv)); assumption.
+    + rewrite upd_p_DD. apply nolist_PPD. apply nolist_PPD in Hb. apply nolist_PPD in Ha.
+      revert okv Ha. induction kv as [|[k v] r IHr]; intros okv Ha; cbn [updp_go]; [exact Ha|].
+      inversion Hb as [|? ? Hv Hr]; subst. cbn [snd] in Hv.
+      destruct (aget k okv) as [ov|] eqn:E.
+      * apply IHr; [exact Hr|]. apply aset_Forall_snd; [|exact Ha]. apply IH; [|exact Hv]. exact (aget_Forall nolist k okv ov Ha E).
+      * apply IHr; [exact Hr|]. apply aset_Forall_snd; assumption.
+Qed.
+
+Lemma hcompat_nolist : forall ds d0, nolist d0 -> Forall nolist ds -> hcompat d0 ds.
+Proof.
+  induction ds as [|d r IH]; intros d0 H0 HF; [exact I|]. inversion HF; subst. cbn [hcompat]. split; [apply lcompat_nolist; assumption|].
+  apply IH; [apply nolist_upd_p; assumption|assumption].
 Qed.
